@@ -182,7 +182,7 @@ func ComputeEffects(m *Model) *Effects {
 			if op, addr, ok := AtomicOp(c); ok {
 				a := Addr(addr)
 				for _, mm := range m.Maps {
-					if a.Owner == mm.Name && a.Field == mm.FlagF && (op == "Load" || op == "CAS") {
+					if mm.IsFlag(a) && (op == "Load" || op == "CAS") {
 						set(EffReadsFlag, FuncName(f)+" @ "+pos)
 					}
 				}
